@@ -504,11 +504,14 @@ class Interpreter:
             # do not conflict. Two transitions conflict if one of them leaves the parallel state
             for t1, t2 in combinations(transitions, 2):
                 # Check (1)
-                lca = cast(str, self._statechart.least_common_ancestor(t1.source, t2.source))
-                lca_state = self._statechart.state_for(lca)
+                # Two transitions from the same state are always a non-deterministic choice
+                same_source = t1.source == t2.source
+                if not same_source:
+                    lca = cast(str, self._statechart.least_common_ancestor(t1.source, t2.source))
+                    lca_state = self._statechart.state_for(lca)
 
                 # Their LCA must be an orthogonal state!
-                if not isinstance(lca_state, OrthogonalState):
+                if same_source or not isinstance(lca_state, OrthogonalState):
                     raise NonDeterminismError(
                         'Non-determinist choice between transitions {t1} and {t2}'
                         '\nConfiguration is {c}\nEvent is {e}\nTransitions are:{t}\n'
